@@ -150,7 +150,7 @@ def generate(work, module, cfg, out_ndjson, timeout=1800, extra=None, tag="E"):
     return n
 
 
-RE_TUPLE = re.compile(r'^<<"(VERDICT|DRIFT|DONE|KEY|STAT)"(.*)>>$')
+RE_TUPLE = re.compile(r'^<<"(VERDICT|DRIFT|DONE|VACUOUS|STAT2|STAT)"(.*)>>$')
 
 
 def judge(work, module, cfg, trace, env=None, timeout=1800):
@@ -160,7 +160,7 @@ def judge(work, module, cfg, trace, env=None, timeout=1800):
     if env:
         e.update(env)
     rc, out, wall = run_tlc(work, module, cfg, workers=1, env=e, timeout=timeout, heap="12g")
-    verdicts, drift, done, stats = [], [], None, {}
+    verdicts, drift, done, stats, stat2, vac = [], [], None, {}, {}, []
     for line in out.splitlines():
         m = RE_TUPLE.match(line.strip())
         if not m:
@@ -175,10 +175,16 @@ def judge(work, module, cfg, trace, env=None, timeout=1800):
             drift.append((rest[0], int(rest[1]), int(rest[2]), int(rest[3])))
         elif kind == "STAT":
             stats[rest[0]] = (int(rest[1]), int(rest[2]))
+        elif kind == "STAT2":
+            a = stat2.setdefault(rest[0], [0, 0])
+            a[0] += int(rest[1])
+            a[1] += int(rest[2])
+        elif kind == "VACUOUS":
+            vac.append(rest[0])
     if done is None or rc != 0:
         tail = "\n".join(out.splitlines()[-30:])
         raise Infra("trace judge %s did not consume the trace %s (rc=%d):\n%s" % (module, trace, rc, tail))
-    return {"verdicts": verdicts, "drift": drift, "lines": done, "stats": stats, "wall_s": round(wall, 1)}
+    return {"verdicts": verdicts, "drift": drift, "lines": done, "stats": stats, "stat2": stat2, "vacuous": vac, "wall_s": round(wall, 1)}
 
 
 # --------------------------------------------------------------------------- Go harness
